@@ -401,9 +401,18 @@ static void random_history(long long c)
 	vh_case_replay("--extra %s --only-case %lld", vh_opt.extra, c);
 	begin_history(1 + (int)vh_below(&r, NF));
 	/* time base */
-	if (!hostile_time)
+	if (!hostile_time) {
+		/* dispatch order must not depend on where the tick counter stands: one history in three starts a few
+		 * hundred ticks below the 2^32 wrap or the 2^31 sign flip, so that pending due times straddle it */
+		uint32_t b = vh_below(&r, 6);
 		T = 100 + (int64_t)vh_below(&r, 1000);
-	else {
+		if (b == 0)
+			T = (1ll << 32) * 3 - (int64_t)vh_below(&r, 400);
+		else if (b == 1)
+			T = (1ll << 32) * 3 + (1ll << 31) - (int64_t)vh_below(&r, 400);
+		if (b < 2)
+			VH_COUNT("histories_starting_just_below_a_wrap_point");
+	} else {
 		static const int64_t deltas[] = { 0, 1, 2, 50, 1000 };
 		int64_t d = deltas[vh_below(&r, 5)];
 		switch (vh_below(&r, 4)) {
